@@ -103,6 +103,7 @@ func fdAuditScenario(life string) *vsched.Scenario {
 			}
 		case "poller-open-fails":
 			vsyscall.L().Dev.CtlFail = true
+			vsyscall.L().Dev.PollCreateFail = true
 			func() {
 				defer func() {
 					if p := recover(); p != nil {
